@@ -1,11 +1,12 @@
 (* C12 — Staking bookkeeping stays consistent and the chain never wedges itself.  Statement of record (ledger model). *)
 From Coq Require Import NArith List Bool.
-From V Require Import U64 Extracted Ledger LedgerCheck LedgerHistory.
-From V Require LedgerConservation LedgerStaking.
+From V Require Import U64 Extracted Ledger LedgerCheck LedgerHistory LedgerBlock.
+From V Require LedgerConservation LedgerStaking LedgerBlockProofs.
 Import ListNotations.
 Local Open Scope N_scope.
 Module LC := LedgerConservation.
 Module LS := LedgerStaking.
+Module LB := LedgerBlockProofs.
 
 (* On every reachable state the staking records agree with each other: total / delegated / per-committee tallies equal the
    sums over validator records, and every unstaking or paused marker names an existing validator in exactly that status and
@@ -42,3 +43,19 @@ Proof. exact LS.slash_consistent. Qed.
 Theorem C12_old_delete_validator_wedges : exists s a v s1, LS.wf s /\ LS.Consistent s /\ aget a (l_vals s) = Some v /\ v_unstaking v = l_height s /\
   LS.delete_validator_old a v s = LOk s1 /\ delete_finished_unstaking s1 = LErr.
 Proof. exact LS.old_delete_wedges. Qed.
+
+(* ---- whole blocks: the scheduled mint and the reward distribution never fail on a reachable state (the unchecked uint64
+   subtraction rewardPool.Amount - totalDistributed cannot wrap: the shares add up to at most the pool), and histories that
+   include them never wedge *)
+Theorem C12_mint_never_fails : forall total dao_pct chains s,
+  LInv s -> LB.chains_ok chains -> LC.total s + total < two64 -> dao_pct < two64 ->
+  exists s', fund_pools total dao_pct chains s = LOk s'.
+Proof. exact LB.fund_never_fails. Qed.
+Theorem C12_rewards_never_fail : forall chain stubs samples penalty s,
+  LInv s -> LS.heights_ok s -> stubs_ok stubs samples -> penalty < two64 -> chain <= MaxChainId ->
+  exists s', distribute_committee chain stubs samples penalty s = LOk s'.
+Proof. exact LB.distribute_never_fails. Qed.
+Print Assumptions C12_rewards_never_fail.
+Theorem C12_whole_blocks_never_wedge : forall ops s, LInv s -> LB.bhist_ok ops s -> exists s', LB.brun ops s = LOk s'.
+Proof. exact LB.block_history_never_fails. Qed.
+Print Assumptions C12_whole_blocks_never_wedge.
